@@ -331,7 +331,7 @@ def check_relations(ctx, c, outs, where):
                 v("stats.matched_lines differs from --count", file=f, stats=a, count=n)
             if a[0] != 1 or a[1] != (1 if std_mc > 0 else 0):
                 v("stats.searches / searches_with_match wrong", file=f, stats=a)
-        if st_json and st_std and je["begins"]:
+        if st_json and st_std:
             a, b = st_std[0], st_json[0]
             if (a[0], a[1], a[2], a[4], a[5]) != (b[0], b[1], b[2], b[4], b[5]):
                 v("per-file stats differ between standard --stats and JSON", file=f, std=a, json=b)
@@ -524,6 +524,7 @@ def check_cli(ctx, c, lib_outs):
         v("-o --count is not --count-matches", a=r["norm_oc"][1], b=r["cm"][1])
     # 4. --stats totals are sums over files
     body, tot = split_stats(r["std_stats"][1])
+    tot_std = list(tot) if tot is not None else None
     if tot is None:
         v("no --stats block in standard mode output")
     else:
@@ -574,10 +575,23 @@ def check_cli(ctx, c, lib_outs):
         v("no summary message under --json --stats")
     else:
         ends = [m["data"]["stats"] for m in msgs if m["type"] == "end"]
-        for k in ("searches", "searches_with_match", "bytes_searched", "bytes_printed", "matched_lines", "matches"):
+        # (files without output have no end message; their searches / bytes searched are compared with --stats below)
+        for k in ("searches_with_match", "bytes_printed", "matched_lines", "matches"):
             if summary[k] != sum(e[k] for e in ends):
                 v("JSON summary.%s is not the sum over the end messages" % k, summary=summary[k],
                   ends=[e[k] for e in ends])
+    # plain --json implies --stats: its summary totals are those `--stats` reports in standard mode
+    if summary is not None and tot_std is not None:
+        a = (summary["matches"], summary["matched_lines"], summary["searches_with_match"])
+        if a != (tot_std[0], tot_std[1], tot_std[2]):
+            v("--json summary (matches, matched lines, files with matches) differs from the --stats totals",
+              json=a, stats=tot_std[:3])
+        nbegin = sum(1 for m in msgs if m["type"] == "begin")
+        ends = [m["data"]["stats"] for m in msgs if m["type"] == "end"]
+        want_bytes = tot_std[5] if c["mx"] is None else summary["bytes_searched"]
+        if summary["searches"] != tot_std[3] or summary["bytes_searched"] != want_bytes:
+            v("--json summary (searches, bytes searched) differs from the --stats totals",
+              json=(summary["searches"], summary["bytes_searched"]), stats=(tot_std[3], tot_std[5]))
     # --quiet with statistics (-q --stats, and --json -q where statistics are implicit) must still search every
     # file: the totals are the sums of what the per-file modes report
     nl = len(parse_paths(r["l"][1]))
